@@ -456,3 +456,20 @@ pub fn directive_ladders(max_n: usize) -> Vec<String> {
     }
     out
 }
+
+
+/// a line comment, each kind of line end (LF, CRLF, lone CR, CR CR LF, CR blank LF), and what may follow it
+/// (comments of every kind, code, a literal), in three places
+pub fn comment_sequences() -> Vec<String> {
+    let mut out = vec![];
+    for c1 in ["//a", "// a ", "///d", "//"] {
+        for sep in ["\n", "\r\n", "\r", "\r\r\n", "\r \n", "\r    "] {
+            for next in ["{b} y", "//c\n y", "(*b*) y", "y", "{b\nc} y", "'s'", "{$R+} y", "// pasfmt off\n y"] {
+                out.push(format!("f(x, {c1}{sep}{next},\n  z);\n"));
+                out.push(format!("begin\n  a; {c1}{sep}{next};\nend.\n"));
+                out.push(format!("{c1}{sep}{next};\n"));
+            }
+        }
+    }
+    out
+}
